@@ -125,7 +125,7 @@ class World:
         self.pending_open = None
         self.pending_hook = None
         self.client_open = True
-        if cfg["mode"] == "start":
+        if cfg["mode"] in ("start", "start_half"):
             self.tun.state = S.OPEN
             self.transports[self.tun] = {"reading": True}
         # the peer behind the tunnel connection
@@ -136,6 +136,9 @@ class World:
         self.pay_written = 0
         self.pay_total = payload_stream(int(sc.get("units", 64)))
         self.pfin = False
+        if cfg["mode"] == "start_half":  # EOF already read (state bit cleared), its ConnectionClosed event still to come
+            self.tun.state = S.CAN_WRITE
+            self.net, self.pfin = [("fin",)], True
         self.connect_sent = False
         self.responded = False
         self.child_rx = 0
@@ -488,7 +491,9 @@ CFGS_HTTP = (cfg("http", "command", react=True, hosthdr=True, auth=True),
 CFGS_PLAIN = (cfg("plain", "command", same=True, react=True),
               cfg("plain", "command", same=False, react=False),
               cfg("plain", "start", same=False, react=True),
-              cfg("plain", "start", same=True, react=False))
+              cfg("plain", "start", same=True, react=False),
+              cfg("plain", "start_half", same=True, react=True))
+CFGS_HALF = (cfg("http", "start_half", react=True, hosthdr=True, auth=False), cfg("plain", "start_half", same=False, react=False))
 
 ADDRS = (["example.com", 443], ["10.1.2.3", 8443], ["2001:db8::7", 443], ["xn--bcher-kva.example", 80], ["::1", 8080])
 OK_HEADS = ("HTTP/1.1 200 Connection established\r\n\r\n", "HTTP/1.0 200 OK\r\nVia: 1.1 p\r\n\r\n",
@@ -554,17 +559,19 @@ class Check(core.PropertyCheck):
 
         inv = ("Report", "NoNestedOpen", "QueuesWhenPaused", "ReplyOnlyWhileWaiting")
         t0 = _t.time()
-        http_q = {**self.BASE, "Cfgs": CFGS_HTTP, "MaxClient": 2, "MaxPeer": 1, "MaxCut": 1, "CClose": not ctx.quick}
+        http_q = {**self.BASE, "Cfgs": CFGS_HTTP, "MaxClient": 2, "MaxPeer": 1, "MaxCut": 1, "CClose": True}
         plain_q = {**self.BASE, "Cfgs": CFGS_PLAIN, "MaxClient": 3, "MaxPeer": 1, "MaxCut": 0, "CClose": True}
         runs = [ctx.model_check(self.MODEL, http_q, dump=True, invariants=inv, view="View", tag="_http"),
                 ctx.model_check(self.MODEL, plain_q, dump=True, invariants=inv, view="View", tag="_plain")]
         self._sims = []
         if not ctx.quick:
+            runs.append(ctx.model_check(self.MODEL, {**http_q, "Cfgs": CFGS_HALF, "MaxClient": 3}, dump=True, invariants=inv,
+                                        view="View", tag="_half"))
             # larger instances: exhaustive for the statistics / invariants, behaviours by simulation
             http_t = {**http_q, "MaxClient": 3, "CClose": True}
             plain_t = {**plain_q, "MaxClient": 4, "MaxPeer": 2, "MaxCut": 1}
-            runs.append(ctx.model_check(self.MODEL, http_t, dump=False, invariants=inv, view="View", tag="_http_big"))
-            runs.append(ctx.model_check(self.MODEL, plain_t, dump=False, invariants=inv, view="View", tag="_plain_big"))
+            runs.append(ctx.model_check(self.MODEL, http_t, dump=False, invariants=inv, view="View", tag="_http_big", workers=min(ctx.workers, 4)))
+            runs.append(ctx.model_check(self.MODEL, plain_t, dump=False, invariants=inv, view="View", tag="_plain_big", workers=min(ctx.workers, 4)))
             for tag, c in (("simh", {**http_t, "MaxClient": 5, "MaxPeer": 3, "MaxCut": 3}), ("simp", {**plain_t, "MaxClient": 6, "MaxOpens": 3})):
                 behs, _r = ctx.simulate(self.MODEL, c, num=3000, depth=30, tag=tag, timeout=900)
                 self._sims += behs
@@ -644,8 +651,8 @@ class Check(core.PropertyCheck):
         # seeded random environment, not bounded by the model's constants: byte-sized segments, many writes, long histories
         rrng = random.Random(ctx.seed + 55)
         allcfg = CFGS_HTTP + CFGS_PLAIN + (cfg("http", "command", react=False, hosthdr=False, auth=False),
-                                          cfg("http", "start", react=True, hosthdr=True, auth=True))
-        for _ in range(500 if ctx.quick else 12000):
+                                          cfg("http", "start", react=True, hosthdr=True, auth=True)) + CFGS_HALF
+        for _ in range(1500 if ctx.quick else 12000):
             c = dict(rrng.choice(allcfg))
             data = concretise(rrng, {"cfg": c, "ops": None, "seed": rrng.randrange(1 << 30), "n": rrng.randint(8, 40)})
             data["resp"] = random_heads(rrng)
